@@ -21,7 +21,7 @@ pub fn gen_long_history(check: &str, seed: u64, tier: Tier) -> Run {
     let mut run = Run::new(check, seed);
     let mut w = Rng::stream(seed, "workload");
     let alphabet = 2 + w.weighted(&[2, 4, 4]);
-    let p = GenParams {
+    let mut p = GenParams {
         alphabet,
         max_free: alphabet.min(if w.chance(1, 4) { 4 } else { 3 }),
         max_depth: 1 + w.weighted(&[2, 5, 4]),
@@ -29,6 +29,13 @@ pub fn gen_long_history(check: &str, seed: u64, tier: Tier) -> Run {
         max_leaf: 4.min(alphabet.max(3)),
         binders: w.chance(3, 4),
     };
+    // wide mode (own stream): terms with 5-12 free slots, see gen_sess_run
+    let mut wr = Rng::stream(seed, "wide");
+    if matches!(check, "C13" | "C06") && wr.chance(1, 10) {
+        let alphabet = 6 + wr.below(7);
+        p = GenParams { alphabet, max_free: alphabet, max_depth: 2 + wr.below(2), max_ops: *wr.pick(&[3, 5, 8, 12]), max_leaf: 6, binders: wr.chance(1, 2) };
+        run.set("wide", 1);
+    }
     run.ops = gen_history(&mut w, &p, true);
     if w.chance(1, 4) {
         super::sesscc::insert_symmetry_bias(&mut run.ops, &mut w);
